@@ -13,6 +13,7 @@ import (
 	"sync"
 	"sync/atomic"
 	"testing"
+	"unsafe"
 
 	mocker "github.com/tencent/goom"
 	"github.com/tencent/goom/internal/bytecode/memory"
@@ -475,7 +476,9 @@ func TestC01Library(t *testing.T) {
 			name string
 			f    interface{}
 		}
-		all := func() [6]int { return [6]int{mt.Half(1), mt.Hal(1), mt.Printf(1), mt.Print(1), mt.Perform(1), mt.Sum(1)} }
+		all := func() [6]int {
+			return [6]int{mt.Half(1), mt.Hal(1), mt.Printf(1), mt.Print(1), mt.Perform(1), mt.Sum(1)}
+		}
 		orig := all()
 		for i, m := range []mv{{"Half", mt.Half}, {"Hal", mt.Hal}, {"Printf", mt.Printf}, {"Print", mt.Print}, {"Perform", mt.Perform}, {"Sum", mt.Sum}} {
 			bm := mocker.Create()
@@ -532,4 +535,72 @@ func TestC01Library(t *testing.T) {
 		rep.Violate("C01/not-original-after-reset", "library targets not original after Reset", nil)
 	}
 	rep.Sample(map[string]interface{}{"form": "os.ExpandEnv -> os.Getenv", "result": got})
+}
+
+// ---- instantiated generic functions as targets
+
+//go:noinline
+func GenNoParam[T any]() int { var z T; return int(unsafe.Sizeof(z)) + 1000 }
+
+//go:noinline
+func GenOneParam[T any](a int) int { var z T; return a + int(unsafe.Sizeof(z)) }
+
+//go:noinline
+func GenTyped[T any](x T, a int) int { return a + 7 }
+
+// TestC01Generics: instantiations of generic functions are functions too. Return stubs, callbacks and the exact
+// arguments; other instantiations stay original.
+func TestC01Generics(t *testing.T) {
+	rep := vmon.NewReport("C01")
+	defer rep.Write()
+	guard := func(f func()) (perr interface{}) {
+		defer func() { perr = recover() }()
+		f()
+		return nil
+	}
+	// no parameters: Return and Apply
+	{
+		b := mocker.Create()
+		perr := guard(func() { b.Func(GenNoParam[int]).Return(41); b.Func(GenNoParam[string]).Apply(func() int { return 42 }) })
+		rep.Eval(2)
+		rep.Class("generic-function/no-parameters")
+		if got := [3]int{GenNoParam[int](), GenNoParam[string](), GenNoParam[[3]int64]()}; perr != nil || got != [3]int{41, 42, 1024} {
+			rep.Violate("C01/generic-function-not-diverted", fmt.Sprintf("GenNoParam[int] Return(41), GenNoParam[string] Apply(->42), GenNoParam[[3]int64] untouched: got %v (panic %v), want [41 42 1024]", got, perr), nil)
+		}
+		b.Reset()
+		if got := [2]int{GenNoParam[int](), GenNoParam[string]()}; got != [2]int{1008, 1016} {
+			rep.Violate("C01/not-original-after-reset", fmt.Sprintf("generic instantiations after Reset: %v want [1008 1016]", got), nil)
+		}
+	}
+	// with parameters: the callback sees the caller's arguments
+	{
+		b := mocker.Create()
+		var seen int
+		perr := guard(func() { b.Func(GenOneParam[int]).Apply(func(a int) int { seen = a; return -5 }) })
+		var got int
+		if perr == nil {
+			perr = guard(func() { got = GenOneParam[int](31) })
+		}
+		rep.Eval(1)
+		rep.Class("generic-function/with-parameters/Apply")
+		if perr != nil || got != -5 || seen != 31 {
+			rep.Violate("C01/generic-function-arguments-shifted", fmt.Sprintf("GenOneParam[int](31) with Apply(func(a int) int): result %d (want -5), the callback saw a = %#x (want 31), panic %v", got, seen, perr), map[string]interface{}{"target": "GenOneParam[int]", "mock": "Apply"})
+		}
+		func() { defer func() { recover() }(); b.Reset() }()
+		b = mocker.Create()
+		perr = guard(func() { b.Func(GenOneParam[int]).Return(-1).When(31).Return(310) })
+		var g1, g2 int
+		if perr == nil {
+			perr = guard(func() { g1, g2 = GenOneParam[int](31), GenOneParam[int](32) })
+		}
+		rep.Eval(2)
+		rep.Class("generic-function/with-parameters/When")
+		if perr != nil || g1 != 310 || g2 != -1 {
+			rep.Violate("C01/generic-function-arguments-shifted", fmt.Sprintf("GenOneParam[int] with Return(-1).When(31).Return(310): (31) -> %d, (32) -> %d, want 310 and -1 (panic %v): the condition is compared with something else than the caller's argument", g1, g2, perr), map[string]interface{}{"target": "GenOneParam[int]", "mock": "When"})
+		}
+		func() { defer func() { recover() }(); b.Reset() }()
+		if got := GenOneParam[int](1); got != 9 {
+			rep.Violate("C01/not-original-after-reset", fmt.Sprintf("GenOneParam[int](1) after Reset = %d want 9", got), nil)
+		}
+	}
 }
